@@ -144,6 +144,9 @@ def install_all(readlog=True):
     _INSTALLED = True
 
 
+TIMEOUTS = 0          # watchdog firings in this process
+
+
 class ExecutionTimeout(Exception):
     """One execution of the code under test exceeded the watchdog budget."""
 
@@ -158,6 +161,8 @@ class Watchdog:
         self.armed = False
 
     def _fire(self, signum, frame):
+        global TIMEOUTS
+        TIMEOUTS += 1
         raise ExecutionTimeout("execution exceeded %.0f s" % self.seconds)
 
     def __enter__(self):
